@@ -488,11 +488,11 @@ Print Assumptions C07_promotion_adds_only_placeholders.
 (* non-vacuity and the shape at stake: `count = 0` at the top of a for body, directly in front of an inner while -
    a user statement that looks exactly like a synthetic placeholder; it stays the first statement of the for body *)
 Example C07_reset_stays_in_loop :
-  promote_loop [t_count] [(t_count, s_int)] false (HFor t_i t_3) ex_body
+  promote_loop [t_count] [(t_count, s_int)] false (HFor t_i t_3) ex_loop_body
   = [PDecl t_count s_int s_0 false;
-     PCtl (HFor t_i t_3) [PAssign t_count s_0; PCtl (HWhile t_lt2) [POther [[116;59]]; PAssign t_count t_inc]]]
+     PCtl (HFor t_i t_3) [PAssign t_count s_0; PCtl (HWhile t_lt2) [PSimple [[116;59]]; PAssign t_count t_inc]]]
   /\ is_placeholder (PDecl t_count s_int s_0 false) = true
-  /\ items [] (promote_loop [t_count] [(t_count, s_int)] false (HFor t_i t_3) ex_body)
+  /\ items [] (promote_loop [t_count] [(t_count, s_int)] false (HFor t_i t_3) ex_loop_body)
      = [([], ItAssign t_count s_0);
         ([HFor t_i t_3], ItAssign t_count s_0);
         ([HFor t_i t_3; HWhile t_lt2], ItOther [[116;59]]);
@@ -501,7 +501,7 @@ Proof. exact reset_stays_in_loop. Qed.
 Print Assumptions C07_reset_stays_in_loop.
 
 Example C07_dropped_reset_loses_statement :
-  items [] ex_dropped <> items [] (promote_loop [t_count] [(t_count, s_int)] false (HFor t_i t_3) ex_body).
+  items [] ex_reset_dropped <> items [] (promote_loop [t_count] [(t_count, s_int)] false (HFor t_i t_3) ex_loop_body).
 Proof. exact dropped_reset_loses_statement. Qed.
 Print Assumptions C07_dropped_reset_loses_statement.
 
